@@ -44,7 +44,24 @@ FUNGIBLE_BASE = [
     K('fungible::c02_approve_then_read', functions=BASE_FNS + ['fungible::Base::approve', 'fungible::Base::allowance'], bounds=FUNGIBLE_BOUNDS + '; read at an arbitrary later ledger'),
 ]
 
+HS_FNS = ['role_transfer::transfer_role', 'role_transfer::accept_transfer']
+HS_BOUNDS = '4 symbolic addresses, ledger numbers and TTLs full u32, min_temp_ttl = 1 (as the property prescribes), arbitrary stored pre-state (holder set/renounced, pending offer absent/live/expired), unwind 14'
+
+
+def handshake(mod, fns):
+    return [K('handshake::%s::%s' % (mod, h), functions=HS_FNS + fns, bounds=HS_BOUNDS)
+            for h in ('offer_then_accept', 'accept_step', 'accept_step_witness', 'cancel_then_accept', 'renounce')]
+
+
+HANDSHAKE = handshake('own', ['ownable::transfer_ownership', 'ownable::accept_ownership', 'ownable::renounce_ownership', 'ownable::enforce_owner_auth']) + \
+    handshake('adm', ['access_control::transfer_admin_role', 'access_control::accept_admin_transfer', 'access_control::renounce_admin', 'access_control::enforce_admin_auth'])
+
 CHECKS = {
+    'C07': {
+        'kani': HANDSHAKE,
+        'bounds': HS_BOUNDS,
+        'outside_claim': 'networks whose minimum temporary-entry lifetime exceeds 1 (the property fixes it to 1)',
+    },
     'C01': {
         'kani': FUNGIBLE_BASE,
         'bounds': FUNGIBLE_BOUNDS,
